@@ -286,7 +286,26 @@ def check_conc(pid, tier, seed):
                      "nreaders": 4, "readsEach": (150, 400)[ti], "withCloser": closer, "withStable": True,
                      "segSize": rng.choice([60, 80, 200, 4096]), "sched": [], "seed": seed * 1000 + k,
                      "preload": rng.randint(0, 6), "closeAfter": rng.randint(0, n)})
-    ftrace, races, stderr = run_conc(free, wd, "free", race=True)
+    # hot-tail stress (no race detector: speed matters): many readers spinning on the index being appended / the newest one
+    hot = []
+    for k in range((3, 12)[ti]):
+        hot.append({"id": "%s-hot%d" % (pid, k), "mode": "free", "world": "sim", "prog": ["store"] * (600, 1500)[ti],
+                    "nreaders": 1, "readsEach": 50, "withCloser": closer, "withStable": False, "segSize": (4096, 65536, 512)[k % 3],
+                    "sched": [], "seed": seed * 1000 + 500 + k, "preload": 1, "closeAfter": (600, 1500)[ti] - 1,
+                    "hotReaders": 2 * NCPU})
+    # ... and the same on the tail segment itself (segment.Writer over the sim fs): the publication protocol of the
+    # in-memory index (offsets, commit index) under tight-looping readers
+    for k in range((4, 16)[ti]):
+        hot.append({"id": "%s-seg%d" % (pid, k), "mode": "segstress", "world": "sim", "prog": ["store"] * 20000, "nreaders": 0,
+                    "readsEach": 0, "withCloser": False, "withStable": False, "segSize": 4 << 20, "sched": [], "seed": seed + k,
+                    "preload": 0, "closeAfter": 0, "hotReaders": (2, 8, 4, 1)[k % 4] * NCPU})
+    htrace, _, _ = run_conc(hot, wd, "hot")
+    viols += locate(htrace, judge(htrace, wd, stats))
+    stats["hot_reads"] = sum(json.loads(l).get("hotReads", 0) for l in open(htrace) if '"hotReads"' in l)
+    stats["seg_tail_reads"] = sum(json.loads(l).get("segReads", 0) for l in open(htrace) if '"segReads"' in l)
+    stats["seg_tail_appends"] = sum(json.loads(l).get("segAppends", 0) for l in open(htrace) if '"segAppends"' in l)
+    free += hot
+    ftrace, races, stderr = run_conc(free[:nfree], wd, "free", race=True)
     viols += locate(ftrace, judge(ftrace, wd, stats))
     overlapping = sum(1 for l in open(ftrace) if '"ev":"read"' in l and json.loads(l)["from"] < json.loads(l)["to"])
     if races:
